@@ -12,6 +12,7 @@ mod prng;
 mod readmeprops;
 mod ser;
 mod termprops;
+mod typstprops;
 mod unicode;
 mod util;
 mod wf;
@@ -62,6 +63,7 @@ fn main() {
         "C02" => lexprops::run_c02(&o),
         "C05" => lexprops::run_c05(&o),
         "C11" => readmeprops::run_c11(&o),
+        "C16" => typstprops::run_c16(&o),
         _ => { eprintln!("unknown property {prop}"); std::process::exit(2); }
     };
     rep.write(&o.outdir).expect("write report");
